@@ -170,7 +170,7 @@ pub fn check(opts: &CheckOpts) -> CheckResult {
     );
     let done = Arc::new(AtomicBool::new(false));
 
-    // watchdog: a single run that takes longer than 20 s (normal: well under 1 ms) is a hang
+    // watchdog: a single run that takes longer than 30 s (normal: well under 1 ms) is a hang
     let hang: Arc<Mutex<Option<u64>>> = Arc::new(Mutex::new(None));
     let wd = {
         let beats = beats.clone();
@@ -225,7 +225,7 @@ pub fn check(opts: &CheckOpts) -> CheckResult {
                 }
                 for b in beats.iter() {
                     let idx = b.index.load(Ordering::Relaxed);
-                    if idx > 0 && b.since.lock().unwrap().elapsed() > Duration::from_secs(20) {
+                    if idx > 0 && b.since.lock().unwrap().elapsed() > Duration::from_secs(30) {
                         *hang.lock().unwrap() = Some(idx - 1);
                         return;
                     }
@@ -314,7 +314,7 @@ pub fn check(opts: &CheckOpts) -> CheckResult {
         let mut ev = evaluate_stub();
         ev.violation = Some(crate::oracle::Violation {
             oracle: "hang",
-            detail: format!("run {i} did not finish within 20 s (every next() must return)"),
+            detail: format!("run {i} did not finish within 30 s (every next() must return)"),
         });
         violations.insert(
             0,
@@ -1091,12 +1091,14 @@ fn whiles_intact(before: &Case, after: &Case) -> bool {
 pub fn shrink(prop: Prop, case: &Case, oracle: &str) -> (Case, u32) {
     let mut best = case.clone();
     let mut budget = 2000u32;
+    let mut initial = budget;
     if oracle.ends_with(".accept") {
         return (best, 0);
     }
     if oracle == "hang" {
         // every candidate that still hangs costs its full timeout
         budget = 60;
+        initial = budget;
     }
     loop {
         let mut improved = false;
@@ -1118,7 +1120,7 @@ pub fn shrink(prop: Prop, case: &Case, oracle: &str) -> (Case, u32) {
             break;
         }
     }
-    (best, 2000 - budget)
+    (best, initial - budget)
 }
 
 // ---------------------------------------------------------------------------------------
